@@ -115,6 +115,12 @@ class Stack:
     def _send_message(self, can_id, extended_id, data, fd_format=False):
         d = [int(x) for x in data]
         sim = self.sim
+        self.tx_attempts = getattr(self, 'tx_attempts', 0) + 1
+        if self.tx_attempts in getattr(self, 'tx_error_at', ()):
+            # the driver refuses the frame (transmit buffer full, bus-off, ...): python-can raises CanError from send()
+            import can
+            sim.trace.append((sim.now, self.idx, 'tx-error', can_id, tuple(d)))
+            raise can.CanError('transmit buffer full (injected)')
         if getattr(sim, 'tx_time', 0):
             # bus-time mode (oracle-only runs, no correspondence): handing a frame to the bus takes time, the clock the
             # calling thread reads afterwards has advanced (assumption A2 "zero-duration handlers" is lifted)
@@ -141,13 +147,18 @@ class Stack:
                 msg.data = bytearray(data)
             self.begin(('listener', sim.now, can_id, 1 if ext else 0, 1 if flags.get('remote') else 0,
                         1 if flags.get('error') else 0, list(data)))
-            self.listener.on_message_received(msg)
-            self.end(0)
+            try:
+                self.listener.on_message_received(msg)
+            except vts.SimStall as ex:
+                sim.trace.append((sim.now, self.idx, 'notify-exc', 'SimStall'))
+                self.end(exc=ex)
+            else:
+                self.end(0)
         else:
             self.begin(('notify', sim.now, can_id, list(data)))
             try:
                 self.ecu.notify(can_id, bytearray(data), 0.0)
-            except Exception as ex:
+            except (Exception, vts.SimStall) as ex:
                 sim.trace.append((sim.now, self.idx, 'notify-exc', type(ex).__name__))
                 self.end(exc=ex)
             else:
@@ -205,7 +216,7 @@ class Stack:
         self.begin(op)
         try:
             r = fn()
-        except Exception as ex:
+        except (Exception, vts.SimStall) as ex:
             self.sim.trace.append((self.sim.now, self.idx, 'call-exc', op[0], type(ex).__name__, str(ex)))
             self.end(exc=ex)
             return ex
@@ -219,13 +230,17 @@ class Stack:
         self.sim.trace.append((now, self.idx, 'send_pgn', dp, pf, ps, prio, sa, len(data), r if isinstance(r, bool) else repr(r)))
         return r
 
-    def add_timer(self, delta, cb, cookie=None):
-        self.sim.trace.append((self.sim.now, self.idx, 'api', 'add_timer', cb.cid, us(delta), 1 if cb.ret else 0))
-        return self.call(('add_timer', self.sim.now, us(delta), cb.cid, 1 if cb.ret else 0), lambda: self.ecu.add_timer(delta, cb.fire, cookie))
+    def add_timer(self, delta, cb, cookie=None, via_ca=None):
+        periodic = 1 if (cb.ret == True) else 0          # noqa: E712 — the library re-arms on `== True`, not on truthiness
+        self.sim.trace.append((self.sim.now, self.idx, 'api', 'add_timer', cb.cid, us(delta), periodic))
+        # via_ca: through ControllerApplication.add_timer / remove_timer of that CA (the same registration on the same ECU)
+        target = self.ecu if via_ca is None else self.cas[via_ca]
+        return self.call(('add_timer', self.sim.now, us(delta), cb.cid, periodic), lambda: target.add_timer(delta, cb.fire, cookie))
 
-    def remove_timer(self, cb):
+    def remove_timer(self, cb, via_ca=None):
         self.sim.trace.append((self.sim.now, self.idx, 'api', 'remove_timer', cb.cid))
-        return self.call(('remove_timer', self.sim.now, cb.cid), lambda: self.ecu.remove_timer(cb.fire))
+        target = self.ecu if via_ca is None else self.cas[via_ca]
+        return self.call(('remove_timer', self.sim.now, cb.cid), lambda: target.remove_timer(cb.fire))
 
     def subscribe(self, cb, dev_adr=None):
         self.sim.trace.append((self.sim.now, self.idx, 'api', 'subscribe', cb.cid, dev_adr))
